@@ -9,6 +9,7 @@ import (
 	"context"
 	"encoding/json"
 	"fmt"
+	"math/big"
 	"net/http"
 	"net/http/httptest"
 	"regexp"
@@ -45,7 +46,24 @@ import (
 // ---------- pools (cases refer to strings by index so that replay files are byte-exact) ----------
 
 var names = []string{"alertname", "job", "instance", "sev", "a-b", "ünï", "", "\xff\xfe"}
-var values = []string{"A", "B", "web", "", "日本", "x\xffy"}
+var values = []string{"A", "B", "web", "", "日本", "x\xffy",
+	// values that differ from another value of the pool only in surrounding whitespace / case / a trailing NBSP:
+	// they are different label values (different fingerprints) and are kept verbatim
+	"A ", " A", "a", "A\u00a0", " ", "web\n", "\tB"}
+
+// explicit timestamps as they are written in a request body: the Unix epoch (also with odd zone offsets and
+// sub-second parts), instants before 1970, Go's zero instant (year 1: IS "missing" for the handler) and its
+// neighbour, the int64-nanosecond limits (2262) and beyond up to year 9999, and ordinary instants written with odd
+// offsets. Cases refer to them by index + 1 (0 = not used).
+var stamps = []string{
+	"1970-01-01T00:00:00Z", "1970-01-01T05:45:00+05:45", "1969-12-31T19:00:00-05:00",
+	"1970-01-01T00:00:00.000000001Z", "1970-01-01T00:00:00.5Z", "1969-12-31T23:59:59.999999999Z",
+	"1900-01-01T00:00:00Z", "1677-09-21T00:12:43Z",
+	"0001-01-01T00:00:00Z", "0001-01-01T05:45:00+05:45", "0001-01-01T00:00:00.000000001Z",
+	"2262-04-11T23:47:16.854775807Z", "2262-04-11T23:47:16.854775808Z", "2300-01-01T00:00:00+14:00",
+	"9999-12-31T23:59:59Z", "9999-12-31T23:59:59.999999999Z",
+	"2000-01-01T05:45:00+05:45", "1999-12-31T14:15:00.000000001-09:45", "2000-01-01T00:05:00.000000001Z", "2000-01-01T12:00:00+12:00",
+}
 var gens = []string{"", "http://prom.example/graph?g0.expr=up"}
 
 const (
@@ -67,6 +85,50 @@ type PAlert struct {
 	Starts int64 `json:"starts"` // unix ns, 0 = field absent
 	Ends   int64 `json:"ends"`
 	Gen    int   `json:"gen,omitempty"`
+	// index+1 into stamps: the field is sent as that literal text instead of Starts / Ends (0 = not used)
+	StartsStamp int `json:"starts_stamp,omitempty"`
+	EndsStamp   int `json:"ends_stamp,omitempty"`
+}
+
+func stampT(i int) time.Time {
+	t, err := time.Parse(time.RFC3339Nano, stamps[i-1])
+	if err != nil {
+		panic(err)
+	}
+	return t
+}
+
+// startT / endT: the submitted instants (zero time = absent; a stamp that IS the zero instant counts as absent, as
+// time.Time.IsZero says)
+func (p PAlert) startT() time.Time {
+	if p.StartsStamp > 0 {
+		return stampT(p.StartsStamp)
+	}
+	return gtime(p.Starts)
+}
+func (p PAlert) endT() time.Time {
+	if p.EndsStamp > 0 {
+		return stampT(p.EndsStamp)
+	}
+	return gtime(p.Ends)
+}
+func (p PAlert) startTxt() string {
+	if p.StartsStamp > 0 {
+		return stamps[p.StartsStamp-1]
+	}
+	if p.Starts == 0 {
+		return ""
+	}
+	return gtime(p.Starts).Format(time.RFC3339Nano)
+}
+func (p PAlert) endTxt() string {
+	if p.EndsStamp > 0 {
+		return stamps[p.EndsStamp-1]
+	}
+	if p.Ends == 0 {
+		return ""
+	}
+	return gtime(p.Ends).Format(time.RFC3339Nano)
 }
 
 type DAlert struct {
@@ -90,7 +152,11 @@ type Case struct {
 	GC        int64  `json:"gc_interval"`
 	Mode      string `json:"mode"`      // "" (default: UTF-8 names, fallback parser) | classic-mode | utf8-strict-mode
 	Transport string `json:"transport"` // http (api.Handler, JSON) | direct (operation handlers)
-	Ops       []Op   `json:"ops"`
+	// --alerts.per-alertname-limit (0 = off). The generator keeps the number of distinct label sets per alertname within
+	// the limit, so on a correct tree the limit never refuses anything (re-sends of admitted alerts are always accepted)
+	// and the model, which has no limit, must still agree.
+	Limit int  `json:"per_alertname_limit,omitempty"`
+	Ops   []Op `json:"ops"`
 }
 
 const epoch = int64(946684800_000_000_000) // synctest bubbles start at 2000-01-01T00:00:00Z
@@ -99,9 +165,9 @@ const epoch = int64(946684800_000_000_000) // synctest bubbles start at 2000-01-
 
 type oalert struct {
 	labels, annots   map[string]string
-	starts, ends     int64
+	starts, ends     time.Time
 	gen              string
-	updated          int64
+	updated          time.Time
 	timeout          bool
 	receivers        []string
 	state            string
@@ -110,11 +176,29 @@ type oalert struct {
 	fp               string
 }
 
-func tz(t time.Time) int64 {
+// coqT renders an instant for the model: nanoseconds since 0001-01-01T00:00:00Z, so that Go's zero time.Time is
+// exactly 0 and every later instant is > 0 (DESIGN 1.1), without any wrap-around (UnixNano wraps in 1678 / 2262).
+var year1 = big.NewInt(62135596800)
+
+func coqT(t time.Time) string {
 	if t.IsZero() {
-		return 0
+		return "0"
 	}
-	return t.UnixNano()
+	v := new(big.Int).Add(big.NewInt(t.Unix()), year1)
+	v.Mul(v, big.NewInt(1_000_000_000)).Add(v, big.NewInt(int64(t.Nanosecond())))
+	if v.Sign() < 0 {
+		panic("instant before year 1")
+	}
+	hi := new(big.Int).Rsh(v, 32)
+	lo := new(big.Int).And(v, big.NewInt(0xffffffff))
+	return fmt.Sprintf("(zi2 %s %s)", hi.String(), lo.String())
+}
+
+func ft(t time.Time) string {
+	if t.IsZero() {
+		return "<zero>"
+	}
+	return t.UTC().Format(time.RFC3339Nano)
 }
 
 func lsMap(ls model.LabelSet) map[string]string {
@@ -126,8 +210,8 @@ func lsMap(ls model.LabelSet) map[string]string {
 }
 
 func fromAlert(a *alert.Alert) oalert {
-	return oalert{labels: lsMap(a.Labels), annots: lsMap(a.Annotations), starts: tz(a.StartsAt), ends: tz(a.EndsAt),
-		gen: a.GeneratorURL, updated: tz(a.UpdatedAt), timeout: a.Timeout}
+	return oalert{labels: lsMap(a.Labels), annots: lsMap(a.Annotations), starts: a.StartsAt, ends: a.EndsAt,
+		gen: a.GeneratorURL, updated: a.UpdatedAt, timeout: a.Timeout}
 }
 
 func key(m map[string]string) string {
@@ -149,11 +233,11 @@ func coqLS(m map[string]string) string {
 }
 
 func (a oalert) coqAlert() string {
-	return vh.App("mkAlert", coqLS(a.labels), coqLS(a.annots), vh.Z(a.starts), vh.Z(a.ends), vh.Str(a.gen), vh.Z(a.updated), vh.Bool(a.timeout))
+	return vh.App("mkAlert", coqLS(a.labels), coqLS(a.annots), coqT(a.starts), coqT(a.ends), vh.Str(a.gen), coqT(a.updated), vh.Bool(a.timeout))
 }
 
 func (a oalert) coqG() string {
-	return vh.App("mkG", coqLS(a.labels), coqLS(a.annots), vh.Z(a.starts), vh.Z(a.ends), vh.Str(a.gen), vh.Z(a.updated),
+	return vh.App("mkG", coqLS(a.labels), coqLS(a.annots), coqT(a.starts), coqT(a.ends), vh.Str(a.gen), coqT(a.updated),
 		vh.ListOf(a.receivers, vh.Str), vh.Str(a.state))
 }
 
@@ -170,11 +254,11 @@ func kvMap(kvs []KV, isAnnot bool) map[string]string {
 }
 
 func (p PAlert) coqP() string {
-	return vh.App("mkP", coqLS(kvMap(p.Labels, false)), coqLS(kvMap(p.Annots, true)), vh.Z(p.Starts), vh.Z(p.Ends), vh.Str(gens[p.Gen]))
+	return vh.App("mkP", coqLS(kvMap(p.Labels, false)), coqLS(kvMap(p.Annots, true)), coqT(p.startT()), coqT(p.endT()), vh.Str(gens[p.Gen]))
 }
 
 func (d DAlert) coqA() string {
-	return vh.App("mkAlert", coqLS(kvMap(d.Labels, false)), coqLS(kvMap(d.Annots, true)), vh.Z(d.Starts), vh.Z(d.Ends), vh.Str(gens[d.Gen]), vh.Z(d.Updated), vh.Bool(d.Timeout))
+	return vh.App("mkAlert", coqLS(kvMap(d.Labels, false)), coqLS(kvMap(d.Annots, true)), coqT(d.startT()), coqT(d.endT()), vh.Str(gens[d.Gen]), coqT(gtime(d.Updated)), vh.Bool(d.Timeout))
 }
 
 func gtime(ns int64) time.Time {
@@ -216,7 +300,7 @@ func refNameOK(mode, n string) bool {
 }
 
 // refValid: the documented validity of a posted alert (after dropping empty-valued labels).
-func refValid(mode string, p PAlert, now, rt int64) bool {
+func refValid(mode string, p PAlert, now time.Time, rt int64) bool {
 	ls := map[string]string{}
 	for k, v := range kvMap(p.Labels, false) {
 		if v != "" {
@@ -237,17 +321,17 @@ func refValid(mode string, p PAlert, now, rt int64) bool {
 		}
 	}
 	// the interval after defaulting (missing end = now + resolve_timeout, missing start = now or the end) must not be reversed
-	s, e := p.Starts, p.Ends
-	if e == 0 {
-		e = now + rt
+	s, e := p.startT(), p.endT()
+	if e.IsZero() {
+		e = now.Add(time.Duration(rt))
 	}
-	if s == 0 {
+	if s.IsZero() {
 		s = now
-		if p.Ends != 0 {
-			s = p.Ends
+		if !p.endT().IsZero() {
+			s = p.endT()
 		}
 	}
-	return s <= e
+	return !e.Before(s)
 }
 
 // refReason classifies why the reference considers a posted alert invalid (histogram only).
@@ -337,9 +421,37 @@ var baseSets = [][]KV{
 	{{3, 0}},         // sev=A (no alertname)
 }
 
+// whitespace / case variants of the base values (index into values)
+var variants = map[int][]int{0: {6, 7, 8, 9}, 1: {12}, 2: {11}}
+
+// limited: label sets for a case with the per-alertname limit on: at most Limit distinct (cleaned, valid) label sets
+// per alertname over the whole case; decorations only of kinds that never make a new stored label set (empty-valued
+// labels are dropped, the empty name is invalid in every mode).
+func (g *gen) limited() []KV {
+	r := g.r
+	inst := []int{2, 1, 4}[r.Intn(g.c.Limit)] // instance = web | B | 日本
+	ls := []KV{{0, r.Intn(2)}, {2, inst}}    // alertname = A | B
+	if r.Chance(1, 4) {
+		ls = append(ls, KV{vh.Pick(r, []int{1, 3}), vEmpty})
+	}
+	if r.Chance(1, 10) {
+		ls = append(ls, KV{6, 0})
+	}
+	return ls
+}
+
 func (g *gen) labels(direct bool) []KV {
 	r := g.r
+	if g.c.Limit > 0 {
+		return g.limited()
+	}
 	ls := append([]KV(nil), baseSets[r.Intn(3+r.Intn(2))]...)
+	if r.Chance(1, 4) { // a value that differs from the base value only in whitespace / case / NBSP: another label set
+		i := r.Intn(len(ls))
+		if vs := variants[ls[i].V]; len(vs) > 0 {
+			ls[i].V = vh.Pick(r, vs)
+		}
+	}
 	has := func(n int) bool {
 		for _, kv := range ls {
 			if kv.N == n {
@@ -374,6 +486,9 @@ func (g *gen) labels(direct bool) []KV {
 			ls = append(ls, KV{3, vInvalidUTF8Value})
 		}
 	}
+	if r.Chance(1, 15) && !has(3) { // a value made of white space only is a value (not "empty")
+		ls = append(ls, KV{3, 10})
+	}
 	return ls
 }
 
@@ -386,6 +501,8 @@ func (g *gen) annots(direct bool) []KV {
 		return []KV{{1, vEmpty}} // empty annotation values are kept
 	case 2:
 		return []KV{{1, 1}, {3, 2}}
+	case 4:
+		return []KV{{1, vh.Pick(r, []int{6, 7, 9, 10, 11, 12})}} // surrounding white space in annotation values is kept
 	case 3:
 		if r.Chance(1, 2) {
 			return []KV{{vh.Pick(r, []int{4, 5, 6}), 0}} // invalid annotation name (mode dependent)
@@ -406,8 +523,16 @@ func (g *gen) palert(direct bool) PAlert {
 	if !r.Chance(8, 20) {
 		p.Ends = g.instant()
 	}
-	if p.Starts != 0 && p.Ends != 0 && p.Ends < p.Starts && !r.Chance(1, 4) {
+	// now and then a timestamp from the pool of unusual literals instead (also in place of a missing one)
+	if r.Chance(1, 8) {
+		p.Starts, p.StartsStamp = 0, 1+r.Intn(len(stamps))
+	}
+	if r.Chance(1, 8) {
+		p.Ends, p.EndsStamp = 0, 1+r.Intn(len(stamps))
+	}
+	if !p.startT().IsZero() && !p.endT().IsZero() && p.endT().Before(p.startT()) && !r.Chance(1, 4) {
 		p.Starts, p.Ends = p.Ends, p.Starts
+		p.StartsStamp, p.EndsStamp = p.EndsStamp, p.StartsStamp
 	}
 	g.note(p.Starts, p.Ends)
 	return p
@@ -419,6 +544,9 @@ func genCase(r *vh.Rand, maxOps int) Case {
 		GC:        vh.Pick(r, []int64{int64(time.Minute), int64(7 * time.Minute), int64(30 * time.Minute)}),
 		Mode:      vh.Pick(r, []string{"", "", featurecontrol.FeatureClassicMode, featurecontrol.FeatureUTF8StrictMode}),
 		Transport: vh.Pick(r, []string{"http", "direct"}),
+	}
+	if r.Chance(1, 5) {
+		c.Limit = r.Range(1, 3)
 	}
 	g := &gen{r: r, c: &c, now: epoch, instants: []int64{epoch}}
 	direct := c.Transport == "direct"
@@ -464,8 +592,17 @@ func genCase(r *vh.Rand, maxOps int) Case {
 			m := r.Range(1, 2)
 			for j := 0; j < m; j++ {
 				p := g.palert(direct)
+				if c.Limit > 0 { // a direct Put stores the label set as it is: keep it one of the admitted ones
+					var ls []KV
+					for _, kv := range p.Labels {
+						if kv.V != vEmpty && kv.N != 6 {
+							ls = append(ls, kv)
+						}
+					}
+					p.Labels = ls
+				}
 				d := DAlert{PAlert: p, Updated: g.now + vh.Pick(r, []int64{0, 0, -1, 1, -int64(time.Minute), int64(time.Minute), -int64(time.Hour)}), Timeout: r.Chance(1, 3)}
-				if d.Starts == 0 && !r.Chance(1, 5) {
+				if d.Starts == 0 && d.StartsStamp == 0 && !r.Chance(1, 5) {
 					d.Starts = g.now
 				}
 				op.Direct = append(op.Direct, d)
@@ -495,8 +632,8 @@ func (s *sys) post(t *testing.T, batch []PAlert) int {
 		for _, p := range batch {
 			pa := &open_api_models.PostableAlert{
 				Annotations: open_api_models.LabelSet(kvMap(p.Annots, true)),
-				StartsAt:    strfmt.DateTime(gtime(p.Starts)),
-				EndsAt:      strfmt.DateTime(gtime(p.Ends)),
+				StartsAt:    strfmt.DateTime(p.startT()),
+				EndsAt:      strfmt.DateTime(p.endT()),
 				Alert:       open_api_models.Alert{GeneratorURL: strfmt.URI(gens[p.Gen]), Labels: open_api_models.LabelSet(kvMap(p.Labels, false))},
 			}
 			pas = append(pas, pa)
@@ -513,11 +650,11 @@ func (s *sys) post(t *testing.T, batch []PAlert) int {
 		if len(p.Annots) > 0 {
 			it["annotations"] = kvMap(p.Annots, true)
 		}
-		if p.Starts != 0 {
-			it["startsAt"] = gtime(p.Starts).Format(time.RFC3339Nano)
+		if txt := p.startTxt(); txt != "" {
+			it["startsAt"] = txt
 		}
-		if p.Ends != 0 {
-			it["endsAt"] = gtime(p.Ends).Format(time.RFC3339Nano)
+		if txt := p.endTxt(); txt != "" {
+			it["endsAt"] = txt
 		}
 		if gens[p.Gen] != "" {
 			it["generatorURL"] = gens[p.Gen]
@@ -568,7 +705,7 @@ func (s *sys) get(t *testing.T) ([]oalert, int, []string) {
 		if o.annots == nil {
 			o.annots = map[string]string{}
 		}
-		o.starts, o.ends, o.updated = tz(time.Time(*ga.StartsAt)), tz(time.Time(*ga.EndsAt)), tz(time.Time(*ga.UpdatedAt))
+		o.starts, o.ends, o.updated = time.Time(*ga.StartsAt), time.Time(*ga.EndsAt), time.Time(*ga.UpdatedAt)
 		for _, r := range ga.Receivers {
 			o.receivers = append(o.receivers, *r.Name)
 		}
@@ -616,7 +753,7 @@ func runCase(t *testing.T, c *Case) (hist []string, viol []vh.Violation, tags ta
 		ctx, cancel := context.WithCancel(context.Background())
 		defer cancel()
 		rec := &gcRec{}
-		alerts, err := mem.NewAlerts(ctx, time.Duration(c.GC), 0, rec, logger, eventrecorder.NopRecorder(), prometheus.NewRegistry(), flags)
+		alerts, err := mem.NewAlerts(ctx, time.Duration(c.GC), c.Limit, rec, logger, eventrecorder.NopRecorder(), prometheus.NewRegistry(), flags)
 		if err != nil {
 			t.Fatal(err)
 		}
@@ -664,19 +801,20 @@ func runCase(t *testing.T, c *Case) (hist []string, viol []vh.Violation, tags ta
 		}
 
 		prev := map[string]oalert{} // dump after the previous op
-		add := func(now int64, opTerm, outTerm string) {
-			hist = append(hist, fmt.Sprintf("(%s, %s, %s)", vh.Z(now), opTerm, outTerm))
+		add := func(nowNs int64, opTerm, outTerm string) {
+			hist = append(hist, fmt.Sprintf("(%s, %s, %s)", coqT(gtime(nowNs)), opTerm, outTerm))
 		}
 		// observe: GET + dump, with the GET-exactness oracle; returns the dump as a map
-		observe := func(now int64, after string) map[string]oalert {
+		observe := func(nowNs int64, after string) map[string]oalert {
+			now := gtime(nowNs)
 			got, code, _ := s.get(t)
 			if code != 200 {
 				violate("get-failed", fmt.Sprintf("GET /api/v2/alerts returned %d", code))
 			}
 			sortO(got)
-			add(now, "OGet", vh.App("RGet", vh.ListOf(got, oalert.coqG)))
+			add(nowNs, "OGet", vh.App("RGet", vh.ListOf(got, oalert.coqG)))
 			d := s.dump()
-			add(now, "ODump", vh.App("RDump", vh.ListOf(d, oalert.coqAlert)))
+			add(nowNs, "ODump", vh.App("RDump", vh.ListOf(d, oalert.coqAlert)))
 			cur := map[string]oalert{}
 			for _, a := range d {
 				if _, dup := cur[key(a.labels)]; dup {
@@ -697,10 +835,10 @@ func runCase(t *testing.T, c *Case) (hist []string, viol []vh.Violation, tags ta
 					violate("get-not-exact", fmt.Sprintf("after %s: GET lists %s which is not stored", after, k))
 					continue
 				}
-				if st.ends != 0 && st.ends < now {
-					violate("get-not-exact", fmt.Sprintf("after %s: GET lists %s whose end %d has passed at %d", after, k, st.ends, now))
+				if !st.ends.IsZero() && st.ends.Before(now) {
+					violate("get-not-exact", fmt.Sprintf("after %s: GET lists %s whose end %s has passed at %s", after, k, ft(st.ends), ft(now)))
 				}
-				if a.starts != st.starts || a.ends != st.ends || a.updated != st.updated || a.gen != st.gen || key(a.annots) != key(st.annots) {
+				if !a.starts.Equal(st.starts) || !a.ends.Equal(st.ends) || !a.updated.Equal(st.updated) || a.gen != st.gen || key(a.annots) != key(st.annots) {
 					violate("get-times-differ-from-store", fmt.Sprintf("after %s: GET shows %s with other times/annotations than stored", after, k))
 				}
 				if len(a.receivers) != 1 || a.receivers[0] != "default" {
@@ -719,21 +857,22 @@ func runCase(t *testing.T, c *Case) (hist []string, viol []vh.Violation, tags ta
 			}
 			for k, st := range cur {
 				switch {
-				case st.ends == now:
+				case st.ends.Equal(now):
 					tags["get-at-exact-end-listed"]++
-				case st.ends != 0 && st.ends < now:
+				case !st.ends.IsZero() && st.ends.Before(now):
 					tags["get-hides-ended-alert"]++
-				case st.ends == 0:
+				case st.ends.IsZero():
 					tags["get-zero-end-listed"]++
 				}
-				if (st.ends == 0 || st.ends >= now) && !seen[k] {
-					violate("get-not-exact", fmt.Sprintf("after %s: stored alert %s with end %d >= now %d is missing from GET", after, k, st.ends, now))
+				if (st.ends.IsZero() || !st.ends.Before(now)) && !seen[k] {
+					violate("get-not-exact", fmt.Sprintf("after %s: stored alert %s with end %s >= now %s is missing from GET", after, k, ft(st.ends), ft(now)))
 				}
 			}
 			return cur
 		}
 		// clauses that hold across every op: alerts only vanish in a gc run, and then only resolved ones
-		vanish := func(cur map[string]oalert, now int64, gcRan bool, deleted []oalert) {
+		vanish := func(cur map[string]oalert, nowNs int64, gcRan bool, deleted []oalert) {
+			now := gtime(nowNs)
 			del := map[string]bool{}
 			for _, a := range deleted {
 				del[key(a.labels)] = true
@@ -744,8 +883,8 @@ func runCase(t *testing.T, c *Case) (hist []string, viol []vh.Violation, tags ta
 				}
 				if !gcRan {
 					violate("alert-vanished-without-gc", "a stored alert disappeared outside garbage collection: "+k)
-				} else if p.ends == 0 || p.ends > now {
-					violate("gc-removed-unresolved", fmt.Sprintf("gc at %d removed %s whose end is %d", now, k, p.ends))
+				} else if p.ends.IsZero() || p.ends.After(now) {
+					violate("gc-removed-unresolved", fmt.Sprintf("gc at %s removed %s whose end is %s", ft(now), k, ft(p.ends)))
 				}
 				if gcRan && !del[k] {
 					violate("gc-callback-missing", "gc removed an alert without PostDelete: "+k)
@@ -784,8 +923,8 @@ func runCase(t *testing.T, c *Case) (hist []string, viol []vh.Violation, tags ta
 				cur := observe(tick, "gc")
 				vanish(cur, tick, true, deleted)
 				for k, a := range cur {
-					if a.ends != 0 && a.ends <= tick {
-						violate("gc-kept-resolved", fmt.Sprintf("gc at %d kept %s whose end is %d", tick, k, a.ends))
+					if !a.ends.IsZero() && !a.ends.After(gtime(tick)) {
+						violate("gc-kept-resolved", fmt.Sprintf("gc at %s kept %s whose end is %s", ft(gtime(tick)), k, ft(a.ends)))
 					}
 					if p, ok := prev[k]; !ok || !sameO(p, a) {
 						violate("gc-changed-alert", "gc changed or created "+k)
@@ -795,10 +934,7 @@ func runCase(t *testing.T, c *Case) (hist []string, viol []vh.Violation, tags ta
 					if p, ok := prev[key(a.labels)]; !ok || !sameO(p, a) {
 						violate("gc-callback-wrong-alert", "PostDelete got an alert that was not stored like that")
 					}
-					if a.ends > tick {
-						tags["gc-removed-boundary-bug"]++
-					}
-					if a.ends == tick {
+					if a.ends.Equal(gtime(tick)) {
 						tags["gc-removed-at-exact-end"]++
 					}
 				}
@@ -826,13 +962,13 @@ func runCase(t *testing.T, c *Case) (hist []string, viol []vh.Violation, tags ta
 				add(now, vh.App("OPost", vh.ListOf(op.Batch, PAlert.coqP)), vh.App("RPost", vh.Z(int64(code)), vh.ListOf(sent, oalert.coqAlert)))
 				cur := observe(now, "post")
 				vanish(cur, now, false, nil)
-				postOracle(c, op, now, code, prev, cur, sent, violate, tags)
+				postOracle(c, op, gtime(now), code, prev, cur, sent, violate, tags)
 				prev = cur
 			case "put":
 				var as []*alert.Alert
 				for _, d := range op.Direct {
 					noteStrings(nameTbl, valueTbl, d.PAlert)
-					a := &alert.Alert{Alert: model.Alert{Labels: model.LabelSet{}, Annotations: model.LabelSet{}, StartsAt: gtime(d.Starts), EndsAt: gtime(d.Ends), GeneratorURL: gens[d.Gen]},
+					a := &alert.Alert{Alert: model.Alert{Labels: model.LabelSet{}, Annotations: model.LabelSet{}, StartsAt: d.startT(), EndsAt: d.endT(), GeneratorURL: gens[d.Gen]},
 						UpdatedAt: gtime(d.Updated), Timeout: d.Timeout}
 					for k, v := range kvMap(d.Labels, false) {
 						a.Labels[model.LabelName(k)] = model.LabelValue(v)
@@ -842,7 +978,7 @@ func runCase(t *testing.T, c *Case) (hist []string, viol []vh.Violation, tags ta
 					}
 					as = append(as, a)
 					if p, ok := prev[key(kvMap(d.Labels, false))]; ok && len(op.Direct) == 1 {
-						if d.Updated < p.updated {
+						if gtime(d.Updated).Before(p.updated) {
 							tags["put-older-than-stored"]++
 						}
 					}
@@ -868,8 +1004,8 @@ func runCase(t *testing.T, c *Case) (hist []string, viol []vh.Violation, tags ta
 }
 
 func sameO(a, b oalert) bool {
-	return key(a.labels) == key(b.labels) && key(a.annots) == key(b.annots) && a.starts == b.starts && a.ends == b.ends &&
-		a.gen == b.gen && a.updated == b.updated && a.timeout == b.timeout
+	return key(a.labels) == key(b.labels) && key(a.annots) == key(b.annots) && a.starts.Equal(b.starts) && a.ends.Equal(b.ends) &&
+		a.gen == b.gen && a.updated.Equal(b.updated) && a.timeout == b.timeout
 }
 
 func noteStrings(nameTbl, valueTbl map[string]bool, p PAlert) {
@@ -884,7 +1020,8 @@ func noteStrings(nameTbl, valueTbl map[string]bool, p PAlert) {
 // postOracle: the contract clauses of C13 for one POST, stated on observations only (stored alerts before/after,
 // response code, alerts handed to subscribers). Clauses about merged times are applied to label sets that occur once
 // among the valid alerts of the batch (for repeated ones the clauses compose and are covered by the model comparison).
-func postOracle(c *Case, op *Op, now int64, code int, prev, cur map[string]oalert, sent []oalert, violate func(k, what string), tags tagset) {
+func postOracle(c *Case, op *Op, now time.Time, code int, prev, cur map[string]oalert, sent []oalert, violate func(k, what string), tags tagset) {
+	rt := time.Duration(c.RT)
 	nValid := 0
 	perKey := map[string]int{}
 	for _, p := range op.Batch {
@@ -902,6 +1039,9 @@ func postOracle(c *Case, op *Op, now int64, code int, prev, cur map[string]oaler
 		tags["post-all-invalid"]++
 	default:
 		tags["post-mixed"]++
+	}
+	if c.Limit > 0 {
+		tags["post-with-per-alertname-limit"]++
 	}
 	want := 200
 	if nValid != len(op.Batch) {
@@ -933,15 +1073,15 @@ func postOracle(c *Case, op *Op, now int64, code int, prev, cur map[string]oaler
 		k := cleanedKey(p)
 		a, ok := cur[k]
 		if !ok {
-			violate("valid-alert-not-stored", "a valid alert of the batch is not stored: "+k)
+			violate("valid-alert-not-stored", "a valid alert of the batch is not stored under its own label set: "+k)
 			continue
 		}
-		if o, had := prev[k]; had && o.updated > now {
+		if o, had := prev[k]; had && o.updated.After(now) {
 			tags["post-onto-future-updated"]++ // only reachable through the direct Put ops; Merge keeps the stored side
 			continue
 		}
-		if a.updated != now {
-			violate("updated-at-not-receive-time", fmt.Sprintf("stored updatedAt %d, receive time %d", a.updated, now))
+		if !a.updated.Equal(now) {
+			violate("updated-at-not-receive-time", fmt.Sprintf("stored updatedAt %s, receive time %s", ft(a.updated), ft(now)))
 		}
 		if perKey[k] != 1 {
 			tags["post-same-labelset-twice-in-batch"]++
@@ -950,18 +1090,22 @@ func postOracle(c *Case, op *Op, now int64, code int, prev, cur map[string]oaler
 		if len(kvMap(p.Labels, false)) != len(a.labels) {
 			tags["post-empty-label-dropped"]++
 		}
+		if p.StartsStamp > 0 || p.EndsStamp > 0 {
+			tags["post-unusual-timestamp-literal"]++
+		}
 		// submitted interval after defaulting
-		s, e := p.Starts, p.Ends
-		if e == 0 {
-			e = now + c.RT
+		ps, pe := p.startT(), p.endT()
+		s, e := ps, pe
+		if pe.IsZero() {
+			e = now.Add(rt)
 			tags["post-end-missing"]++
 		}
-		if s == 0 {
+		if ps.IsZero() {
 			tags["post-start-missing"]++
-			if p.Ends == 0 {
+			if pe.IsZero() {
 				s = now
 			} else {
-				s = p.Ends
+				s = pe
 			}
 		}
 		old, had := prev[k]
@@ -970,60 +1114,64 @@ func postOracle(c *Case, op *Op, now int64, code int, prev, cur map[string]oaler
 		}
 		if !had {
 			tags["post-fresh"]++
-			if a.starts != s || a.ends != e || a.timeout != (p.Ends == 0) {
-				violate("defaults-wrong", fmt.Sprintf("fresh alert stored as [%d,%d] timeout=%v, want [%d,%d]", a.starts, a.ends, a.timeout, s, e))
+			if !a.starts.Equal(s) || !a.ends.Equal(e) || a.timeout != pe.IsZero() {
+				violate("defaults-wrong", fmt.Sprintf("fresh alert (startsAt %q endsAt %q at %s) stored as [%s,%s] timeout=%v, want [%s,%s]", p.startTxt(), p.endTxt(), ft(now), ft(a.starts), ft(a.ends), a.timeout, ft(s), ft(e)))
 			}
 			continue
 		}
-		intersect := s < old.ends && old.starts < e
+		intersect := s.Before(old.ends) && old.starts.Before(e)
 		switch {
 		case intersect:
 			tags["post-intersects-stored"]++
-			if a.starts != min(s, old.starts) {
-				violate("earliest-start-lost", fmt.Sprintf("stored [%d,%d], submitted [%d,%d] intersect, but start is %d", old.starts, old.ends, s, e, a.starts))
+			m := s
+			if old.starts.Before(m) {
+				m = old.starts
 			}
-		case s >= old.ends:
+			if !a.starts.Equal(m) {
+				violate("earliest-start-lost", fmt.Sprintf("stored [%s,%s], submitted [%s,%s] intersect, but start is %s", ft(old.starts), ft(old.ends), ft(s), ft(e), ft(a.starts)))
+			}
+		case !s.Before(old.ends):
 			tags["post-after-stored-interval"]++
-			if s == old.ends {
+			if s.Equal(old.ends) {
 				tags["post-touching-start-eq-old-end"]++
 			}
-			if a.starts != s || a.ends != e {
-				violate("refire-not-restarted", fmt.Sprintf("stored [%d,%d], submitted later [%d,%d], now stored [%d,%d]", old.starts, old.ends, s, e, a.starts, a.ends))
+			if !a.starts.Equal(s) || !a.ends.Equal(e) {
+				violate("refire-not-restarted", fmt.Sprintf("stored [%s,%s], submitted later [%s,%s], now stored [%s,%s]", ft(old.starts), ft(old.ends), ft(s), ft(e), ft(a.starts), ft(a.ends)))
 			}
 		default:
 			tags["post-before-stored-interval"]++
-			if e == old.starts {
+			if e.Equal(old.starts) {
 				tags["post-touching-end-eq-old-start"]++
 			}
-			if a.starts != s {
+			if !a.starts.Equal(s) {
 				violate("earliest-start-lost", "submission entirely before the stored interval did not set the start")
 			}
 		}
-		if a.starts > s {
+		if a.starts.After(s) {
 			violate("start-later-than-submitted", "stored start is later than the submitted start")
 		}
-		if p.Ends == 0 {
+		if pe.IsZero() {
 			// missing endsAt: receive time + resolve_timeout, pushed forward by every re-send
-			if a.ends < now+c.RT {
-				violate("end-not-pushed-forward", fmt.Sprintf("re-send without endsAt at %d left the end at %d < now+resolve_timeout", now, a.ends))
+			if a.ends.Before(now.Add(rt)) {
+				violate("end-not-pushed-forward", fmt.Sprintf("re-send without endsAt at %s left the end at %s < now+resolve_timeout", ft(now), ft(a.ends)))
 			}
-			if old.timeout && a.ends != now+c.RT {
+			if old.timeout && !a.ends.Equal(now.Add(rt)) {
 				violate("end-not-pushed-forward", "timeout-only alert: end is not receive time + resolve_timeout")
 			}
-			if a.ends != now+c.RT {
+			if !a.ends.Equal(now.Add(rt)) {
 				tags["post-explicit-later-end-kept"]++
 			}
-		} else if p.Ends <= now {
+		} else if !pe.After(now) {
 			// explicit end in the past (or now): resolved immediately
 			tags["post-end-in-past"]++
-			if a.ends > now {
-				violate("past-end-not-resolved", fmt.Sprintf("alert posted with end %d <= now %d is stored with end %d", p.Ends, now, a.ends))
+			if a.ends.After(now) {
+				violate("past-end-not-resolved", fmt.Sprintf("alert posted with end %s <= now %s is stored with end %s", ft(pe), ft(now), ft(a.ends)))
 			}
-			if a.ends != p.Ends {
+			if !a.ends.Equal(pe) {
 				tags["post-later-resolved-end-kept"]++
 			}
 		}
-		if a.ends != e && a.ends != old.ends {
+		if !a.ends.Equal(e) && !a.ends.Equal(old.ends) {
 			violate("end-from-nowhere", "stored end is neither the submitted nor the previous end")
 		}
 	}
@@ -1078,6 +1226,7 @@ func TestCheck(t *testing.T) {
 			run.Count("cases_with_branch", k)
 		}
 		run.Count("transport", c.Transport)
+		run.Count("per_alertname_limit", fmt.Sprintf("%d", c.Limit))
 		run.Count("mode", "mode="+c.Mode)
 		run.Count("history_len", fmt.Sprintf("%02d-%02d", len(c.Ops)/5*5, len(c.Ops)/5*5+4))
 	}
